@@ -403,12 +403,12 @@ Proof.
   destruct (bt_insert s (ptRoot s) bs) as [s1 [[[k lsn] nr]|e|]]; cbn [snd] in *; [discriminate|discriminate|congruence].
 Qed.
 
-Lemma st_create_table_np s d n fds :
-  Rep s d -> NoDup (names fds) -> nextFree (fst (st_create_table s n fds)) <= OFFMAX ->
-  snd (st_create_table s n fds) <> Panic.
+Lemma st_create_table0_np s d n fds :
+  Rep s d -> NoDup (names fds) -> nextFree (fst (st_create_table0 s n fds)) <= OFFMAX ->
+  snd (st_create_table0 s n fds) <> Panic.
 Proof.
   intros HR Hnd Hmax. pose proof HR as [Hinv Hok (pt & sc & ents & osc & HC)].
-  unfold st_create_table in *.
+  unfold st_create_table0 in *.
   destruct (is_sys n) eqn:Hsys.
   { destruct (rel_offset_sys s d n HR Hsys) as [o Eo]. rewrite Eo. cbn [snd]. discriminate. }
   destruct (find_tbl n d) as [t|] eqn:Hf.
@@ -434,8 +434,17 @@ Proof.
   exact (insert_schema_rows_np n fds s2 d [] osc2 HR2 Eosc Hnd Hmax).
 Qed.
 
+Lemma st_create_table_np s d n fds :
+  Rep s d -> nextFree (fst (st_create_table s n fds)) <= OFFMAX ->
+  snd (st_create_table s n fds) <> Panic.
+Proof.
+  intros HR Hmax. unfold st_create_table in *. fold (names fds) in *.
+  destruct (names_distinct (names fds)) eqn:Hd; [|cbn [snd]; discriminate].
+  apply (st_create_table0_np s d n fds HR (names_distinct_NoDup _ Hd) Hmax).
+Qed.
+
 (* ====================== one statement never panics ====================== *)
-(* hypotheses: CREATE TABLE column names pairwise distinct; INSERT / UPDATE literals are Go values
+(* hypotheses: INSERT / UPDATE literals are Go values
    (int64, strings < 4 GiB); CREATE TABLE / INSERT keep the file below 2^63 bytes. DELETE, SELECT
    and the session statements need none. *)
 Definition np_hyp (s : store) (st : stmt) : bool :=
@@ -452,8 +461,8 @@ Proof.
   1,2: cbn [np_hyp] in Hh; apply andb_true_iff in Hh as [Hst Hmax]; apply N.leb_le in Hmax.
   3,4: cbn [np_hyp] in Hh; rename Hh into Hst.
   - (* CREATE TABLE *)
-    cbn [stmt_ok] in Hst. apply nodupb_NoDup in Hst. cbn [run_stmt] in *.
-    pose proof (st_create_table_np s d n (map fielddef_of cds) HR ltac:(rewrite names_fielddefs; exact Hst)) as Hn.
+    clear Hst. cbn [run_stmt] in *.
+    pose proof (st_create_table_np s d n (map fielddef_of cds) HR) as Hn.
     destruct (st_create_table s n (map fielddef_of cds)) as [s1 [[]|e|]]; cbn [e_out e_store fst snd] in *;
       [discriminate | discriminate |].
     exfalso. apply Hn; [exact Hmax | reflexivity].
@@ -604,7 +613,7 @@ Record DbInv (y : sys) (d : db) : Prop := mkDbInv {
 
 (* the hypotheses on one statement, evaluated in the store it runs on *)
 Definition stmt_hyp (s : store) (st : stmt) : bool :=
-  stmt_ok st &&                                                   (* distinct CREATE TABLE columns; Go values *)
+  stmt_ok st &&                                                   (* literals are Go values *)
   N.leb (nextFree (e_store (run_stmt s st))) OFFMAX &&            (* the file stays below 2^63 bytes *)
   stmt_moves_okb s st &&                                          (* C02's (H2) *)
   match e_out (run_stmt s st) with                                (* a failing statement fails early *)
